@@ -284,7 +284,7 @@ pub struct Counters {
     pub outcomes: DistinctSet,
 }
 
-pub fn check_case(case: &Case, rep: &Reporter, ctr: &Counters, picks: Vec<u16>, sample: &Mutex<Option<J>>) {
+pub fn check_case(case: &Case, rep: &Reporter, ctr: &Counters, picks: Vec<u16>, sample: &Mutex<Option<J>>, formats: &[&'static str]) {
     let Some(b) = build(case) else { return };
     ctr.cases.fetch_add(1, Ordering::Relaxed);
     let dir = cli::thread_dir("c18");
@@ -294,7 +294,7 @@ pub fn check_case(case: &Case, rep: &Reporter, ctr: &Counters, picks: Vec<u16>, 
     let first_layer = layers.iter().min().copied();
     let generates = case.command != 0;
     let mut runs: Vec<(&str, CliRun)> = vec![];
-    for fmt in FORMATS {
+    for fmt in formats.iter().copied() {
         cli::materialize(&dir, &b.project);
         let mut args = b.args.clone();
         let i = args.iter().position(|a| a.is_empty()).unwrap();
@@ -503,9 +503,10 @@ pub fn check_case(case: &Case, rep: &Reporter, ctr: &Counters, picks: Vec<u16>, 
             let r = &runs[1].1;
             rep.report(Violation { key: format!("formats_disagree[json:rdjson:{}]", layer_tag(first_layer)), what: format!("json and rdjson report different located diagnostics: json {:?} (message locations {:?}) vs rdjson {:?}", j, lj, rd), case: case_json("rdjson", r, json!({})) });
         }
-        let h = &runs[2].1;
+        let no_human = CliRun { code: None, timed_out: false, stdout: String::new(), stderr: String::new(), before: Default::default(), after: Default::default() };
+        let h = runs.get(2).map_or(&no_human, |x| &x.1);
         let herr = cli::strip_ansi(&h.stderr);
-        for (p, l, c, m) in j {
+        for (p, l, c, m) in j.iter().filter(|_| runs.len() > 2) {
             let needle = format!("{p}:{}:{}", l + 1, c + 1);
             let ok = herr.lines().any(|ln| cli::norm_path(ln.trim()).ends_with(&needle)) && herr.contains(m.lines().next().unwrap_or(""));
             if !ok {
@@ -515,7 +516,7 @@ pub fn check_case(case: &Case, rep: &Reporter, ctr: &Counters, picks: Vec<u16>, 
     }
     let codes: BTreeSet<Option<i32>> = runs.iter().map(|(_, r)| r.code).collect();
     if codes.len() > 1 {
-        let r = &runs[2].1;
+        let r = &runs[runs.len() - 1].1;
         rep.report(Violation { key: format!("exit_status_depends_on_format[{}]", layer_tag(first_layer)), what: format!("exit status differs between formats: {:?}", runs.iter().map(|(f, r)| (*f, r.code)).collect::<Vec<_>>()), case: case_json("human", r, json!({})) });
     }
     if case.faults.len() == 2 {
@@ -549,7 +550,10 @@ pub fn run(args: &RunArgs) -> i32 {
             if !distinct.insert(fnv(format!("{case:?}").as_bytes())) {
                 return;
             }
-            check_case(&case, &rep, &ctr, c.picks(), &sample);
+            // quick tier: the human rendering is compared for projects of up to two deviations; the machine-readable
+            // formats always
+            let formats: &[&'static str] = if args.quick() && c.deviations() >= 3 { &FORMATS[..2] } else { &FORMATS };
+            check_case(&case, &rep, &ctr, c.picks(), &sample, formats);
         });
         edges += stats.choice_edges;
         all_complete &= !stats.cap_hit;
@@ -621,6 +625,21 @@ fn part_frontend(rep: &Reporter) -> J {
         ("one-introspection-file", vec![("graphql.config.yaml", CFG.replace("./schema/*.graphql", "./schema/*.json")), ("schema/a.json", intro()), ("src/q.graphql", Q.into())], vec!["--config-file", "graphql.config.yaml", "check", "generate"], 0, Some(outs.to_vec()), None),
         ("check-after-generate", vec![("graphql.config.yaml", CFG.into()), ("schema/s.graphql", S.into()), ("src/q.graphql", Q.into())], vec!["--config-file", "graphql.config.yaml", "generate", "check"], 1, None, None),
     ];
+    // configuration discovery: every file name the search knows for YAML / JSON content, found without --config-file
+    const CFG_JSON: &str = "{\"schema\": \"./schema/*.graphql\", \"documents\": \"./src/*.graphql\", \"extensions\": {\"nitrogql\": {\"generate\": {\"schemaOutput\": \"./gen/s.d.ts\"}}}}";
+    let mut cases = cases;
+    for (label, cfg_name, json) in [
+        ("discovered:graphql.config.json", "graphql.config.json", true),
+        ("discovered:graphql.config.yaml", "graphql.config.yaml", false),
+        ("discovered:graphql.config.yml", "graphql.config.yml", false),
+        ("discovered:.graphqlrc", ".graphqlrc", false),
+        ("discovered:.graphqlrc.json", ".graphqlrc.json", true),
+        ("discovered:.graphqlrc.yaml", ".graphqlrc.yaml", false),
+        ("discovered:.graphqlrc.yml", ".graphqlrc.yml", false),
+    ] {
+        cases.push((label, vec![(cfg_name, if json { CFG_JSON.to_string() } else { CFG.to_string() }), ("schema/s.graphql", S.into()), ("src/q.graphql", Q.into())], vec!["check", "generate"], 0, Some(outs.to_vec()), None));
+    }
+    cases.push(("discovered:nothing-to-find", vec![("schema/s.graphql", S.into()), ("src/q.graphql", Q.into())], vec!["check"], 1, Some(vec![]), None));
     let mut runs = 0u64;
     let mut outcomes: BTreeMap<String, String> = BTreeMap::new();
     for (name, files, tail, want, want_written, must_name) in &cases {
